@@ -1,6 +1,7 @@
 """A utility class used to manage Zorg files lives here."""
 
 from pathlib import Path
+import re
 from typing import NewType, Optional
 
 from zorg.domain.models import Note
@@ -49,8 +50,14 @@ class FileManager:
         """Removes {note} from its last known *.zo file."""
         zpage = c.prepend_zdir(self._zdir, note.file_path)
         assert note.zid is not None
+        # The first line of the note we are looking for starts with the note's
+        # prefix followed by ITS OWN ZID. Other notes that merely mention this
+        # ZID (e.g. 'see 240101#AB') must be left alone.
+        own_zid_line = re.compile(
+            rf"^[-ox~<>] +(P[0-9] +)?([0-9]{{6}} +)?{re.escape(note.zid)}( |$)"
+        )
         for i, line in enumerate(zpage.read_text().split("\n")):
-            if f" {note.zid} " in line:
+            if own_zid_line.match(line):
                 start_idx = i
                 break
         else:
